@@ -571,7 +571,7 @@ static int ILLcheck_rawlpdata (
 						c2 = EGLPNUM_TYPENAME_ILLraw_colname (lp, lp->sos_col[perm[i - 1]]);
 						EGLPNUM_TYPENAME_ILLdata_error (lp->error_collector,
 													 "\"%s\" and \"%s\" both have %s %f.\n", c1, c2,
-													 "SOS weight", lp->sos_weight[perm[i]]);
+													 "SOS weight", EGLPNUM_TYPENAME_EGlpNumToLf (lp->sos_weight[perm[i]]));
 						rval = 1;
 					}
 				}
